@@ -111,6 +111,7 @@ func getenv() env {
 }
 
 func Tier() string      { return getenv().tier }
+func Seed() uint64      { return getenv().seed }
 func Thorough() bool    { return getenv().tier == "thorough" }
 func Root() string      { return getenv().root }
 func OutDir() string    { return getenv().out }
